@@ -912,6 +912,8 @@ def check_C06(ctx):
     run_kv_walk(ctx, "pages", tiered(ctx, 24, 240), tiered(ctx, 600, 1500), page_sizes="512,1024,4096", caches="0,1048576", tag="pages")
     run_kv_walk(ctx, "pages", tiered(ctx, 6, 60), tiered(ctx, 800, 2000), page_sizes="512", caches="1048576", tag="pages-regions",
                 extra=["--region-size", "65536"], nkeys=200)
+    run_kv_walk(ctx, "savepoint", tiered(ctx, 30, 300), tiered(ctx, 500, 1500), page_sizes="512,1024", caches="1048576,0", tag="savepoint")
+    run_kv_walk(ctx, "spabort", tiered(ctx, 20, 200), tiered(ctx, 500, 1200), page_sizes="512", tag="spabort")
     k = ctx.notes.get("event_kinds", {})
     ctx.cov["distinct_nontrivial"] += k.get("acct", 0)
     if k.get("acct", 0) < 200:
